@@ -49,6 +49,8 @@ def gen_cases(rng, tier):
     route = rng.choice(ROUTES) if i % 20 else "cli"
     groute = "api" if route.startswith("api") else "potable"
     model = spec.gen_eam_model(rng, "eam", groute, target=rng.choice(["setfl", "lammps_eam_alloy"]))
+    if i % 12 == 9:
+      model = spec.long_labels(rng, model)          # 'Zirconium_a' / 'Zirconium_b': labels alike in their first 8 and 12 characters
     if i % 12 == 7:
       model = spec.numeric_species(rng, model)      # species labelled '9', '10', '2', '100'
     if i % 12 == 3 and groute == "potable":
@@ -116,7 +118,8 @@ def produce(case, ctx, model, route, rng):
 def _produce(case, ctx, model, route, rng):
   t = model["tab"]
   if route == "cli":
-    res = routes.run_potable(["@IN", "@OUT"], emit.model_text(model, emit.Style(rng)))
+    text_in = emit.model_text(model, emit.Style(rng))
+    res = routes.run_potable(["@IN", "@OUT"], text_in, stale_out=(len(text_in) % 2 == 1))
     if res["rc"] == 1 and "OverflowError" in res["err"]:
       raise OverflowError("potable subprocess: math range error")
     if res["rc"] != 0 or not res["exists"]:
